@@ -9,7 +9,7 @@ from .. import canon, gen
 from ..core import call_real, frac
 
 ID = "C13"
-LEAN_MODULE = "CKT.Props.C13Std"
+LEAN_MODULE = "CKT.Props.C13Gen"
 THEOREMS = ["CKT.C13." + t for t in ["split_total", "mapM_total", "step_total", "run_total", "key0_bit", "key1_bit", "key0_other", "key1_other",
                                       "reset_keys", "conditioned_refused", "classical_arg_refused",
                                       # the returned dictionary (Props/C13Collect)
@@ -440,6 +440,13 @@ def _oracle_sweep(payload):
             if abs(exp.get(k, 0) - got.get(k, 0)) > 1e-9:
                 return f"{where}: outcome {k}: true probability {exp.get(k, 0)}, sampler {got.get(k, 0)}"
     return None
+
+
+def regenerate():
+    """the outcome-key arithmetic of simulate_statevector_outcomes, translated on every run"""
+    from ..translate import keys
+    from ..core import REPO, LEAN
+    keys.regenerate(REPO, LEAN)
 
 
 def cases(rng, tier):
